@@ -111,6 +111,39 @@ pac_inst! {
     c19_password_algorithms_clone_one_copy = (true, false);
 }
 
+// the consuming conversion on a value whose clone is still alive (shared storage)
+fn c19_password_algorithms_into_iter_shared<const PRE: bool>() {
+    let first: u16 = kani::any();
+    let a = if PRE { PasswordAlgorithms::from(vec![pa(first)]) } else { PasswordAlgorithms::default() };
+    let n0 = if PRE { 1 } else { 0 };
+    let b = a.clone();
+    let which: bool = kani::any();
+    let (consumed, kept) = if which { (a, b) } else { (b, a) };
+    let mut it = consumed.into_iter();
+    let mut n = 0usize;
+    while let Some(x) = it.next() {
+        assert!(u16::from(x.algorithm()) == first);
+        n += 1;
+        std::mem::forget(x);
+    }
+    assert!(n == n0, "C19: into_iter of a shared value yields the list");
+    assert!(kept.password_algorithms().len() == n0, "C19: the other copy is unaffected");
+    std::mem::forget(it);
+    std::mem::forget(kept);
+}
+#[kani::proof]
+#[kani::unwind(4)]
+#[kani::stub(alloc::fmt::format, nofmt)]
+fn c19_password_algorithms_into_iter_shared_empty() {
+    c19_password_algorithms_into_iter_shared::<false>();
+}
+#[kani::proof]
+#[kani::unwind(4)]
+#[kani::stub(alloc::fmt::format, nofmt)]
+fn c19_password_algorithms_into_iter_shared_one() {
+    c19_password_algorithms_into_iter_shared::<true>();
+}
+
 #[kani::proof]
 #[kani::unwind(5)]
 #[kani::stub(alloc::fmt::format, nofmt)]
@@ -212,4 +245,47 @@ fn c19_message_builder_accessors() {
         assert!(a.as_fingerprint().is_ok() && a.as_software().is_err(), "C19: as_* reports a mismatch through a Result");
     }
     std::mem::forget(msg);
+}
+
+// C18 (unit level): the value the decoder stores for an unknown attribute.  Unknown::new with the raw
+// value keeps exactly those bytes, with None keeps nothing; the type code is kept either way.  (The
+// whole-decoder query with a stored unknown value runs out of memory; the decoder's choice between the
+// two is the expression `ctx.with_unknown_data().then_some(raw_attr.value)`, whose None side is
+// decided by c18c_*.)
+fn c18_unknown_new<const L: usize>() {
+    use crate::attributes::Unknown;
+    let code: u16 = kani::any();
+    let data: [u8; L] = kani::any();
+    let with: bool = kani::any();
+    let u = if with { Unknown::new(crate::AttributeType::from(code), Some(&data[..])) } else { Unknown::new(crate::AttributeType::from(code), None) };
+    assert!(u.attribute_type().as_u16() == code);
+    match u.attribute_data() {
+        None => assert!(!with, "C18: with_unknown_data keeps the raw value"),
+        Some(d) => {
+            assert!(with, "C18: raw data only when asked for");
+            assert!(d.len() == L, "C18: exactly the raw value bytes");
+            if L > 0 {
+                let j: usize = kani::any();
+                kani::assume(j < L);
+                assert!(d[j] == data[j], "C18: exactly the raw value bytes");
+            }
+        }
+    }
+    let c = u.clone();
+    assert!(c == u);
+    std::mem::forget(c);
+    std::mem::forget(u);
+}
+macro_rules! c18u_inst {
+    ($($name:ident = $l:expr;)*) => {$(
+        #[kani::proof]
+        #[kani::unwind(10)]
+        #[kani::stub(alloc::fmt::format, nofmt)]
+        fn $name() { c18_unknown_new::<$l>(); }
+    )*};
+}
+c18u_inst! {
+    c18_unknown_new_l0 = 0;
+    c18_unknown_new_l4 = 4;
+    c18_unknown_new_l7 = 7;
 }
